@@ -2,7 +2,11 @@ package types
 
 // C08 — type equality is equi-recursive equality and always terminates.
 
-import vn "grits/zzvn"
+import (
+	"time"
+
+	vn "grits/zzvn"
+)
 
 // ZZC08Oracle: EqualType(S, T, E) returns (unwinding assertion = call-depth limit of the run),
 // does not panic, and agrees with the reference bisimilarity, for every well-formed contractive
@@ -61,3 +65,99 @@ func init() {
 	vn.Register("types.ZZC08Oracle", ZZC08Oracle)
 	vn.Register("types.ZZC08Laws", ZZC08Laws)
 }
+
+// ZZC08Nesting: one call that compares the same name against two differently associated
+// binary types: S = L ⊙ L' over two definitions with binary bodies of depth 1 (so a name unfolds
+// to a binary type of depth 2), T = T1 ⊙ T2 with T1, T2
+// binary types of depth 2 (1, *, -* only). The memo of innerEqualType is keyed by printed forms;
+// a key that does not keep `(1 * 1) * 1` and `1 * (1 * 1)` apart answers the second comparison
+// from the first one.
+func ZZC08Nesting() {
+	e := ZZGenEnv(2, 1)
+	m := vn.Int(0, 3)
+	s := ZZGenNode(1, m, e.Modes)
+	vn.Assume(vn.And(vn.Or(s.Sel == zzSend, s.Sel == zzRecv), vn.And(s.A.Sel == zzLabel, s.B.Sel == zzLabel)))
+	// T0 = 1 ⊙ 1; T1 has T0 as one operand and 1 as the other; S = T1 ⊙ T1; T has no names
+	b0, b1 := e.Body[0], e.Body[1]
+	vn.Assume(vn.And(vn.Or(b0.Sel == zzSend, b0.Sel == zzRecv), vn.And(b0.A.Sel == zzUnit, b0.B.Sel == zzUnit)))
+	vn.Assume(vn.Or(b1.Sel == zzSend, b1.Sel == zzRecv))
+	vn.Assume(vn.Or(vn.And(vn.And(b1.A.Sel == zzLabel, b1.A.Ref == 0), b1.B.Sel == zzUnit), vn.And(vn.And(b1.B.Sel == zzLabel, b1.B.Ref == 0), b1.A.Sel == zzUnit)))
+	vn.Assume(vn.And(s.A.Ref == 1, s.B.Ref == 1))
+	t := ZZGenNode(3, m, e.Modes)
+	zzNoNames(t)
+	vn.Assume(s.Sel == t.Sel)
+	n := e.Fixpoint()
+	want := e.Equal(s, t, n, 3)
+	var got bool
+	panicked := vn.Try(func() { got = EqualType(s.T, t.T, e.Env) })
+	vn.Assert("C08.no-panic", vn.Not(panicked))
+	vn.Assert("C08.equals-bisimilarity", got == want)
+	vn.Observe("got", got)
+}
+
+func zzNoNames(n *ZZNode) {
+	if n == nil {
+		return
+	}
+	vn.Assume(n.Sel != zzLabel)
+	zzNoNames(n.A)
+	zzNoNames(n.B)
+	zzNoNames(n.C)
+}
+
+func init() { vn.Register("types.ZZC08Nesting", ZZC08Nesting) }
+
+// zzCycle builds two families of n mutually recursive two-branch choice definitions
+// (A_i = +{l : A_{i+1}, r : A_{i+1}} with A_n = A_0, likewise B_i): A_0 and B_0 denote the same
+// regular tree, and a comparison that memoises every pair expands each of the n pairs
+// (A_i, B_i) once.
+func zzCycle(n int, internal bool, mode Modality, l0, l1 string) (SessionType, SessionType, LabelledTypesEnv) {
+	var defs []SessionTypeDefinition
+	name := func(f string, i int) string { return f + string(rune('a'+i%26)) + string(rune('a'+i/26)) }
+	for _, fam := range []string{"A", "B"} {
+		for i := 0; i < n; i++ {
+			next := NewLabelType(name(fam, (i+1)%n), mode)
+			next2 := NewLabelType(name(fam, (i+1)%n), mode)
+			opts := []Option{*NewOption(l0, next), *NewOption(l1, next2)}
+			var body SessionType
+			if internal {
+				body = NewSelectLabelType(opts, mode)
+			} else {
+				body = NewBranchCaseType(opts, mode)
+			}
+			defs = append(defs, SessionTypeDefinition{Name: name(fam, i), SessionType: body, Modality: mode})
+		}
+	}
+	return NewLabelType(name("A", 0), mode), NewLabelType(name("B", 0), mode), ProduceLabelledSessionTypeEnvironment(defs)
+}
+
+// ZZC08Cost: the cost of one comparison grows linearly with the number of distinct pairs, not
+// exponentially with the depth of the cycle. Under gse the calls of innerEqualType are counted
+// on cycles of N definitions (symbolic labels and mode); natively the same family is scaled up
+// (64 definitions: 2^65 calls without sharing) and must answer within 3 s.
+func ZZC08Cost() {
+	n := vn.Param("N", 4)
+	internal := vn.Bool()
+	mode := zzMode(vn.Int(0, 3), 4)
+	l0, l1 := zzLabelName(vn.Int(0, 2)), zzLabelName(vn.Int(0, 2))
+	vn.Assume(vn.Not(vn.EqS(l0, l1)))
+	if !vn.Symbolic() {
+		a, b, env := zzCycle(64, internal, mode, l0, l1)
+		got := false
+		ok := vn.Within(3*time.Second, func() { got = EqualType(a, b, env) })
+		vn.Assert("C08.comparison-cost-is-linear-in-the-pairs", ok)
+		vn.Assert("C09.type-comparison-answers-in-bounded-time", ok)
+		vn.Assert("C08.equal-cycles-are-equal", !ok || got)
+		return
+	}
+	a, b, env := zzCycle(n, internal, mode, l0, l1)
+	vn.CountCalls("innerEqualType")
+	got := EqualType(a, b, env)
+	calls := vn.Calls()
+	// one call per pair (A_i, B_i), two recursive calls for its branches, plus the entry
+	vn.Assert("C08.comparison-cost-is-linear-in-the-pairs", calls <= 4*n+4)
+	vn.Assert("C09.type-comparison-answers-in-bounded-time", calls <= 4*n+4)
+	vn.Assert("C08.equal-cycles-are-equal", got)
+}
+
+func init() { vn.Register("types.ZZC08Cost", ZZC08Cost) }
